@@ -81,7 +81,10 @@ fn eval_inner(state: &mut RunState, line: &'static str) -> Result<()> {
     }
 
     // Check labels
-    let mut asm = AsmLine::new(0, stmt, Span::dummy());
+    // The instruction is executed with the current (not incremented) PC, so it acts as the
+    // statement just before the one at PC: label offsets must be relative to that line
+    let line = state.pc().wrapping_sub(state.orig());
+    let mut asm = AsmLine::new(line, stmt, Span::dummy());
     asm.backpatch()?;
 
     // Compile and execute
